@@ -142,6 +142,15 @@ pub fn jobs_for(prop: &str, thorough: bool) -> Vec<Job> {
                     t.sweep = None;
                     js.push(t);
                 }
+                if ["OS", "MO", "MM", "MMO", "MMM"].contains(&s) {
+                    let mut c3 = Cfg::base(3, 14, Delivery::Causal, mon::LAWS);
+                    c3.nobs = 3;
+                    c3.anyk = true;
+                    c3.laws = 16;
+                    c3.policy = 255;
+                    let swp = Sweep { next: 8, disc: Delivery::Fifo, causal_ref: 1, exhaustive_upto: 0, merges: true };
+                    js.push(job(s, "random history; observers fed along adversarial FIFO extensions merge with each other, their states as operands of the merge laws", c3, Some(swp), 1000));
+                }
                 if ["OS", "MO", "MMO"].contains(&s) {
                     let mut t = template_job(s, mon::LAWS, Delivery::Fifo, true, 1000);
                     t.cfg.nobs = 3;
@@ -182,6 +191,15 @@ pub fn jobs_for(prop: &str, thorough: bool) -> Vec<Job> {
                     c2.delivery = weakest(s);
                     c2.anyk = !MAPS.contains(&s);
                     js.push(job(s, "same under the weakest discipline", c2, None, 1000));
+                    // random causally authored history (several keys/members, removes sharing one context);
+                    // observers fed along per-actor-ordered extensions hold different pending removes and merge
+                    let mut c3 = Cfg::base(3, 14, Delivery::Causal, mon::HYBRID | mon::SPEC);
+                    c3.nobs = 3;
+                    c3.anyk = !MAPS.contains(&s);
+                    c3.laws = 16;
+                    c3.policy = 255;
+                    let swp = Sweep { next: 8, disc: Delivery::Fifo, causal_ref: 1, exhaustive_upto: 0, merges: true };
+                    js.push(job(s, "random history; observers fed along adversarial FIFO extensions merge with each other, their states as operands of merge vs op-path", c3, Some(swp), 1000));
                 }
             }
         }
@@ -261,14 +279,18 @@ pub fn jobs_for(prop: &str, thorough: bool) -> Vec<Job> {
                 c.equal_vals = eqv;
                 c.anyk = true;
                 c.policy = 255;
-                js.push(job("MV", label, c, None, 6000));
+                js.push(job("MV", label, c, None, 40000));
             }
             let mut c = Cfg::base(4, 30, Delivery::Any, mon::SPEC | mon::CTX);
             c.dups = true;
             c.merges = true;
             c.anyk = true;
             c.policy = 255;
-            js.push(job("MV", "4 replicas", c, None, 2000));
+            js.push(job("MV", "4 replicas", c, None, 15000));
+            let mut c5 = c;
+            c5.nrep = 5;
+            c5.nsteps = 36;
+            js.push(job("MV", "5 replicas, 36 steps", c5, None, 6000));
         }
         "C07" => {
             for s in ["OS", "MV", "MO", "MM", "MMO", "MMM"] {
@@ -280,6 +302,20 @@ pub fn jobs_for(prop: &str, thorough: bool) -> Vec<Job> {
                     c.policy = 255;
                     js.push(job(s, label, c, None, 2000));
                 }
+                {
+                    // four and five actors on the same elements: witness sets and contexts naming many actors
+                    let mut c = Cfg::base(4, 30, weakest(s), mon::CTX);
+                    c.dups = true;
+                    c.merges = true;
+                    c.anyk = !MAPS.contains(&s);
+                    c.policy = 255;
+                    js.push(job(s, "4 replicas, 30 steps, weakest discipline + merges", c, None, 700));
+                    let mut c5 = c;
+                    c5.nrep = 5;
+                    c5.nsteps = 36;
+                    c5.delivery = Delivery::Causal;
+                    js.push(job(s, "5 replicas, 36 steps, causal + merges", c5, None, 300));
+                }
                 if s != "MV" {
                     // observers fed along adversarial per-actor-ordered extensions: many pending removes at once
                     let mut c = Cfg::base(3, 16, Delivery::Causal, mon::CTX);
@@ -290,6 +326,10 @@ pub fn jobs_for(prop: &str, thorough: bool) -> Vec<Job> {
                     swp.merges = true;
                     js.push(job(s, "observer sweep along adversarial FIFO extensions", c, Some(swp), 800));
                     js.push(template_job(s, mon::CTX, Delivery::Fifo, !MAPS.contains(&s), 300));
+                    let mut t = template_job(s, mon::CTX, Delivery::Causal, !MAPS.contains(&s), 600);
+                    t.cfg.merges = true;
+                    t.label = "conflict template with state merges between the authors, every delivery order";
+                    js.push(t);
                 }
             }
         }
@@ -356,11 +396,11 @@ pub fn jobs_for(prop: &str, thorough: bool) -> Vec<Job> {
                 c.stale_merges = true;
                 c.anyk = true;
                 c.policy = 255;
-                js.push(job(s, "any order, dups, merges", c, None, 4000));
+                js.push(job(s, "any order, dups, merges", c, None, 20000));
                 let mut c4 = c;
                 c4.nrep = 5;
                 c4.nsteps = 40;
-                js.push(job(s, "5 actors", c4, None, 1000));
+                js.push(job(s, "5 actors", c4, None, 6000));
             }
             for s in ["GC", "PN"] {
                 let mut c = Cfg::base(5, 30, Delivery::Any, mon::SPEC | mon::MONO);
@@ -369,12 +409,12 @@ pub fn jobs_for(prop: &str, thorough: bool) -> Vec<Job> {
                 c.anyk = true;
                 c.equal_vals = true;
                 c.policy = 255;
-                js.push(job(s, "huge increments: every actor's total near 2^63..2^64, sums far beyond u64", c, None, 1500));
+                js.push(job(s, "huge increments: every actor's total near 2^63..2^64, sums far beyond u64", c, None, 8000));
             }
             let mut c = Cfg::base(3, 16, Delivery::Any, mon::VOP | mon::VMERGE);
             c.misuse = true;
             c.dups = true;
-            js.push(job("LWW", "misuse: markers reused with different values", c, None, 3000));
+            js.push(job("LWW", "misuse: markers reused with different values", c, None, 10000));
         }
         "C12" => {
             let mut c = Cfg::base(3, 26, Delivery::Causal, mon::SPEC | mon::CONV | mon::ORDER | mon::EQ);
@@ -396,6 +436,12 @@ pub fn jobs_for(prop: &str, thorough: bool) -> Vec<Job> {
             c.dups = true;
             c.policy = 255;
             js.push(job("LI", "local edits on states containing remote concurrent siblings", c, None, 5000));
+            let mut t = template_job("LI", mon::SEQ, Delivery::Causal, false, 30000);
+            t.cfg.nsteps = 16;
+            t.cfg.nobs = 0;
+            t.sweep = None;
+            t.label = "conflict template around two positions by 4 actors, then 16 local edits in episodes (bursts; type forward, delete back, retype) at the same spot: deep identifiers";
+            js.push(t);
             let mut g = Cfg::base(3, 30, Delivery::Any, mon::SEQ);
             g.dups = true;
             g.merges = true;
@@ -455,12 +501,12 @@ pub fn jobs_for(prop: &str, thorough: bool) -> Vec<Job> {
                 c.dups = true;
                 c.merges = true;
                 c.policy = 255;
-                js.push(job(s, "correct use: distinct actors", c, None, 1200));
+                js.push(job(s, "correct use: distinct actors", c, None, 5000));
             }
             for s in ["OS", "MO", "MM", "MMO", "LWW"] {
                 let mut c = Cfg::base(3, 10, Delivery::Any, mon::VMERGE);
                 c.misuse = true;
-                js.push(job(s, "misuse: one actor shared by all replicas", c, None, 3000));
+                js.push(job(s, "misuse: one actor shared by all replicas", c, None, 10000));
             }
         }
         "C19" => {
@@ -504,6 +550,10 @@ pub fn jobs_for(prop: &str, thorough: bool) -> Vec<Job> {
                 js.push(job(s, "causal cut sweep: equal K => ==, closed K => no residue", c, sw(16, Delivery::Causal, 0), 1500));
                 if ["OS", "MO", "MM", "MMO", "MMM"].contains(&s) {
                     js.push(template_job(s, mon::EQ | mon::RESIDUE, Delivery::Causal, false, 300));
+                    let mut t = template_job(s, mon::EQ | mon::RESIDUE, Delivery::Causal, false, 600);
+                    t.cfg.merges = true;
+                    t.label = "conflict template with state merges between the authors, every delivery order";
+                    js.push(t);
                 }
                 if has_merge(s) {
                     let mut c2 = Cfg::base(3, 16, weakest(s), mon::EQ | mon::RESIDUE);
